@@ -15,9 +15,12 @@
 package main
 
 import (
+	"bufio"
 	"bytes"
 	"encoding/json"
 	"fmt"
+	"io"
+	"net"
 	"net/http"
 	"net/http/httptest"
 	"os"
@@ -83,6 +86,7 @@ type env struct {
 	master   string // scratch directory on the default temp file system
 	other    string // scratch directory on another mount point ("" if none)
 	url      string
+	rawURL   string
 	signet   string
 	traceArg string
 	seq      int64
@@ -123,7 +127,7 @@ func (e *env) runOnce(sc Scenario, f Fault, when int) (res *RunResult, err error
 		return nil, err
 	}
 	res = &RunResult{dirs: []string{root}}
-	sp := &Spec{Sc: sc, Root: root, URL: e.url, Signet: e.signet}
+	sp := &Spec{Sc: sc, Root: root, URL: e.url, RawURL: e.rawURL, Signet: e.signet}
 	if sc.Tmp == "other" {
 		sp.Other = filepath.Join(e.other, fmt.Sprintf("o%d", n))
 		if err := os.Mkdir(sp.Other, 0o755); err != nil {
@@ -200,6 +204,9 @@ func sideOutputs(sc Scenario, ex *Expect) []string {
 
 func site(sc Scenario) string {
 	s := sc.Op
+	if sc.srvMode() != "" {
+		s += "/interrupted-download"
+	}
 	if sc.has("signed") {
 		s += "(signed)"
 	}
@@ -223,7 +230,7 @@ type scenarioResult struct {
 
 func roots(sp *Spec) []string { return []string{sp.Root, sp.Other} }
 
-var longDigitsRe = regexp.MustCompile(`\d{6,}`)
+var longDigitsRe = regexp.MustCompile(`\d{8,}`)
 
 type pendingViolation struct {
 	key                        string
@@ -291,20 +298,38 @@ func (e *env) traceScenario(sc Scenario, verbose bool) (*scenarioResult, *RunRes
 		c.EngineError("trace run of %s did not complete (begun=%v ended=%v exit=%d)\n%s\n%s", sc.Name(), r.Op.Begun, r.Op.Ended, r.Exit, r.Out, r.LogTail)
 		return nil, r
 	}
-	if r.Result != "ok" {
+	opOK := r.Result == "ok"
+	if !opOK && sc.srvMode() == "" {
 		c.EngineError("trace run of %s: the operation failed without any fault: %s", sc.Name(), r.Result)
 		return nil, r
 	}
 	v := evaluate(r.Before, r.After, r.Expect, sideOutputs(sc, r.Expect))
 	var extra []Problem
-	if v.Dest == "old" { // returned success but the destination does not show the new content
+	if opOK && v.Dest == "old" { // returned success but the destination does not show the new content
 		extra = append(extra, Problem{"dest-old-or-new", "success-without-new-content", "the operation returned nil but the destination still shows the previous state"})
 	}
-	extra = append(extra, traceObligations(r.Op, r.Expect)...)
+	extra = append(extra, traceObligations(r.Op, r.Expect, opOK)...)
 	e.report(sc, Fault{Kind: "none"}, "", v, extra, r)
 	c.Add(0, int64(len(r.Op.Calls)), 1)
-	c.Outcome("complete:" + v.class())
+	cls := "complete:" + v.class()
+	if m := sc.srvMode(); m != "" {
+		// the server misbehaves: the operation may fail, the oracle is evaluated after it returned
+		if opOK {
+			cls += "/op-ok"
+		} else {
+			cls += "/op-error"
+		}
+		c.Nontrivial(sc.Name() + "|complete")
+		c.Outcome("interrupted-download:" + m + ":" + v.class() + cls[strings.LastIndex(cls, "/"):])
+		if sc.Old == "small" && sc.New == "small" && !sc.has("signed") {
+			c.Sample(map[string]any{"scenario": sc.Name(), "fault": "server " + m, "observed": v.State, "verdict": cls, "result": longDigitsRe.ReplaceAllString(strings.ReplaceAll(r.Result, r.Spec.Root, "$R"), "#")})
+		}
+	}
+	c.Outcome(cls)
 	sr.classes[v.Dest] = true
+	if !e.wantPoints(sc) {
+		return sr, r
+	}
 
 	perName := map[string]int{}
 	for _, call := range r.Op.Calls {
@@ -462,6 +487,27 @@ func validate(fp FaultPoint, r *RunResult) string {
 	return ""
 }
 
+// srvModes are the behaviours of the raw download server: the response is
+// complete or cut, delimited by connection close (HTTP/1.0, no Content-Length),
+// by Content-Length or by chunked encoding.
+var srvModes = []string{
+	"close-full", "close-cut-0", "close-cut-1", "close-cut-half", "close-cut-allbut1",
+	"cl-cut-0", "cl-cut-1", "cl-cut-half", "cl-cut-allbut1",
+	"chunked-full", "chunked-cut-midchunk", "chunked-cut-boundary",
+}
+
+// wantPoints: are the fault points of this scenario enumerated as well? The
+// interrupted-download scenarios are decided by their complete run; quick
+// combines only three of them with crash points.
+func (e *env) wantPoints(sc Scenario) bool {
+	m := sc.srvMode()
+	if m == "" || !e.c.Quick() {
+		return true
+	}
+	return sc.Old == "small" && sc.New == "small" && !sc.has("signed") &&
+		(m == "close-cut-half" || m == "cl-cut-half" || m == "chunked-cut-midchunk")
+}
+
 func buildScenarios(c *vlib.Ctx, haveOther bool) []Scenario {
 	q := c.Quick()
 	var out []Scenario
@@ -535,6 +581,21 @@ func buildScenarios(c *vlib.Ctx, haveOther bool) []Scenario {
 			}
 		}
 	}
+	// updater.fetchFile with a server that sends complete or cut responses in every framing
+	for _, m := range srvModes {
+		for _, v := range []string{"", "signed"} {
+			for _, o := range []string{"absent", "small"} {
+				w := "srv=" + m
+				if v != "" {
+					w = v + "," + w
+				}
+				add(opFetch, o, "small", "registry", w)
+				if !q || strings.Contains(m, "half") || strings.Contains(m, "mid") || strings.Contains(m, "boundary") {
+					add(opFetch, o, "medium", "registry", w)
+				}
+			}
+		}
+	}
 	// updater unpacking
 	for _, n := range []string{"small", big} {
 		add(opUnpackZip, "absent", n, "registry", "")
@@ -589,13 +650,20 @@ func run(c *vlib.Ctx) {
 	}
 	e.traceArg = strings.Join(names, ",")
 
-	srv, signet, err := startServer()
+	srv, files, signet, err := startServer()
 	if err != nil {
 		c.EngineError("server: %v", err)
 		return
 	}
 	defer srv.Close()
 	e.url, e.signet = srv.URL, signet
+	rawURL, stopRaw, err := startRawServer(files)
+	if err != nil {
+		c.EngineError("raw server: %v", err)
+		return
+	}
+	defer stopRaw()
+	e.rawURL = rawURL
 
 	defer e.flush()
 	if c.Replay != "" {
@@ -667,7 +735,7 @@ func run(c *vlib.Ctx) {
 	// vacuity: a publishing scenario must have shown both the old and the new state
 	vac := 0
 	for _, sr := range results {
-		if sr == nil || len(sr.points) == 0 {
+		if sr == nil || len(sr.points) == 0 || sr.sc.srvMode() != "" {
 			continue
 		}
 		old, nw := false, false
@@ -725,32 +793,32 @@ func (e *env) replay() {
 }
 
 // startServer serves the resources of the fetch scenarios and their signature files.
-func startServer() (*httptest.Server, string, error) {
+func startServer() (*httptest.Server, map[string][]byte, string, error) {
 	files := map[string][]byte{}
 	// signing key
 	tool, err := tools.Get("Ed25519")
 	if err != nil {
-		return nil, "", err
+		return nil, nil, "", err
 	}
 	ts := jess.NewMemTrustStore()
 	sig := jess.NewSignetBase(tool)
 	sig.ID = "c17-signing-key"
 	if err := tool.StaticLogic.GenerateKey(sig); err != nil {
-		return nil, "", err
+		return nil, nil, "", err
 	}
 	if err := ts.StoreSignet(sig); err != nil {
-		return nil, "", err
+		return nil, nil, "", err
 	}
 	rcpt, err := sig.AsRecipient()
 	if err != nil {
-		return nil, "", err
+		return nil, nil, "", err
 	}
 	if err := ts.StoreSignet(rcpt); err != nil {
-		return nil, "", err
+		return nil, nil, "", err
 	}
 	rcpt58, err := rcpt.ToBase58()
 	if err != nil {
-		return nil, "", err
+		return nil, nil, "", err
 	}
 	for _, size := range []string{"empty", "small", "medium", "large"} {
 		ident := "all/res-" + size + ".bin"
@@ -762,11 +830,11 @@ func startServer() (*httptest.Server, string, error) {
 		env.Senders = []*jess.Signet{sig}
 		letter, _, err := filesig.SignFileData(lhash.BLAKE2b_256.Digest(data), map[string]string{"id": ident, "version": updVersion}, env, ts)
 		if err != nil {
-			return nil, "", fmt.Errorf("sign: %w", err)
+			return nil, nil, "", fmt.Errorf("sign: %w", err)
 		}
 		sf, err := filesig.AddToSigFile(letter, nil, false)
 		if err != nil {
-			return nil, "", err
+			return nil, nil, "", err
 		}
 		files[vp+filesig.Extension] = sf
 	}
@@ -780,5 +848,101 @@ func startServer() (*httptest.Server, string, error) {
 		w.Header().Set("Content-Length", strconv.Itoa(len(data)))
 		_, _ = w.Write(data)
 	}))
-	return srv, rcpt58, nil
+	return srv, files, rcpt58, nil
+}
+
+// startRawServer is a TCP server that answers GET /mode/<mode>/<path> with the
+// file of <path> in the framing and with the cut given by <mode> (see srvModes)
+// and then closes the connection. Signature files are always served complete
+// with Content-Length, so that signed scenarios reach the download of the resource.
+func startRawServer(files map[string][]byte) (string, func(), error) {
+	ln, err := net.Listen("tcp", "127.0.0.1:0")
+	if err != nil {
+		return "", nil, err
+	}
+	go func() {
+		for {
+			conn, err := ln.Accept()
+			if err != nil {
+				return
+			}
+			go serveRaw(conn, files)
+		}
+	}()
+	return "http://" + ln.Addr().String(), func() { _ = ln.Close() }, nil
+}
+
+func cutAt(mode string, n int) int {
+	switch {
+	case strings.HasSuffix(mode, "-full"):
+		return n
+	case strings.HasSuffix(mode, "-cut-0"):
+		return 0
+	case strings.HasSuffix(mode, "-cut-1"):
+		return 1
+	case strings.HasSuffix(mode, "-cut-allbut1"):
+		return n - 1
+	}
+	return n / 2 // -cut-half, -cut-midchunk, -cut-boundary
+}
+
+func serveRaw(conn net.Conn, files map[string][]byte) {
+	defer conn.Close()
+	br := bufio.NewReader(conn)
+	reqLine, err := br.ReadString('\n')
+	if err != nil {
+		return
+	}
+	for { // headers
+		l, err := br.ReadString('\n')
+		if err != nil {
+			return
+		}
+		if strings.TrimSpace(l) == "" {
+			break
+		}
+	}
+	f := strings.Fields(reqLine)
+	if len(f) < 2 || !strings.HasPrefix(f[1], "/mode/") {
+		_, _ = io.WriteString(conn, "HTTP/1.1 400 Bad Request\r\nContent-Length: 0\r\nConnection: close\r\n\r\n")
+		return
+	}
+	rest := strings.TrimPrefix(f[1], "/mode/")
+	i := strings.Index(rest, "/")
+	if i < 0 {
+		return
+	}
+	mode, path := rest[:i], rest[i:]
+	data, ok := files[path]
+	if !ok {
+		_, _ = io.WriteString(conn, "HTTP/1.1 404 Not Found\r\nContent-Length: 0\r\nConnection: close\r\n\r\n")
+		return
+	}
+	if strings.HasSuffix(path, filesig.Extension) {
+		mode = "cl-full"
+	}
+	k := cutAt(mode, len(data))
+	var out bytes.Buffer
+	switch {
+	case strings.HasPrefix(mode, "close-"):
+		out.WriteString("HTTP/1.0 200 OK\r\nContent-Type: application/octet-stream\r\n\r\n")
+		out.Write(data[:k])
+	case strings.HasPrefix(mode, "cl-"):
+		fmt.Fprintf(&out, "HTTP/1.1 200 OK\r\nContent-Type: application/octet-stream\r\nContent-Length: %d\r\nConnection: close\r\n\r\n", len(data))
+		out.Write(data[:k])
+	case mode == "chunked-full":
+		fmt.Fprintf(&out, "HTTP/1.1 200 OK\r\nTransfer-Encoding: chunked\r\nConnection: close\r\n\r\n%x\r\n", len(data))
+		out.Write(data)
+		out.WriteString("\r\n0\r\n\r\n")
+	case mode == "chunked-cut-midchunk": // one chunk announced with the full size, half of it sent
+		fmt.Fprintf(&out, "HTTP/1.1 200 OK\r\nTransfer-Encoding: chunked\r\nConnection: close\r\n\r\n%x\r\n", len(data))
+		out.Write(data[:k])
+	case mode == "chunked-cut-boundary": // a complete first chunk with half of the data, then nothing
+		fmt.Fprintf(&out, "HTTP/1.1 200 OK\r\nTransfer-Encoding: chunked\r\nConnection: close\r\n\r\n%x\r\n", k)
+		out.Write(data[:k])
+		out.WriteString("\r\n")
+	default:
+		return
+	}
+	_, _ = conn.Write(out.Bytes())
 }
